@@ -78,6 +78,8 @@ func (e *Ev) seqArg(v Val, n ast.Node) Term {
 		return x.Seq
 	case VBufPtr:
 		return e.st.env[x.Obj].(VBuf).Seq
+	case VRunes:
+		return x.Seq
 	case VIface:
 		e.fx.useSeq = true
 		e.fx.specUsed["iface_pack"] = true
@@ -184,6 +186,9 @@ func (e *Ev) evIdent(x *ast.Ident) Val {
 		case "empty":
 			e.fx.useSeq = true
 			return VSeq{"bs_empty"}
+		}
+		if tg, ok := ghostTags[x.Name]; ok {
+			return VInt{fmt.Sprintf("%d", tg)}
 		}
 		if e.lookup != nil {
 			if v, ok := e.lookup(x.Name); ok {
@@ -551,7 +556,7 @@ func (e *Ev) evIndex(x *ast.IndexExpr, commaOk bool) Val {
 	case VStrs:
 		i := e.intOf(e.ev(x.Index), x.Index)
 		e.safety("index", "index", x.Pos(), sAnd(sLe("0", i), sLt(i, b.N)), "index in range of "+exprString(x.X))
-		return e.fx.strAt(b, i, e.contract)
+		return wrapElem(b, e.fx.strAt(b, i, e.contract))
 	case VIfaces:
 		i := e.intOf(e.ev(x.Index), x.Index)
 		e.safety("index", "index", x.Pos(), sAnd(sLe("0", i), sLt(i, b.N)), "index in range of "+exprString(x.X))
@@ -742,7 +747,7 @@ func (e *Ev) evComposite(x *ast.CompositeLit) Val {
 				oo = fmt.Sprintf("(store %s %s %s)", oo, k, s.O)
 				ll = fmt.Sprintf("(store %s %s %s)", ll, k, s.L)
 			}
-			return VStrs{e.fx.name(sortArrArr, "sb", bb), e.fx.name(sortArr, "so", oo), e.fx.name(sortArr, "sl", ll), fmt.Sprintf("%d", len(x.Elts))}
+			return VStrs{B: e.fx.name(sortArrArr, "sb", bb), O: e.fx.name(sortArr, "so", oo), L: e.fx.name(sortArr, "sl", ll), N: fmt.Sprintf("%d", len(x.Elts))}
 		}
 		if b, ok := u.Elem().Underlying().(*types.Basic); ok && (b.Kind() == types.Int32 || b.Kind() == types.Uint8) {
 			// []rune{consts} / []byte{consts}: constant fold to a string
@@ -823,4 +828,12 @@ func funcKey(f *types.Func) string {
 		return pkg + ".(?)." + f.Name()
 	}
 	return pkg + "." + f.Name()
+}
+
+// wrapElem: a []T of single-string structs is modelled as the []string of their fields.
+func wrapElem(b VStrs, s VStr) Val {
+	if b.Wrap == "" {
+		return s
+	}
+	return VStruct{TName: b.Wrap, Names: []string{b.WrapField}, F: map[string]Val{b.WrapField: s}}
 }
